@@ -13,7 +13,7 @@ SIGMA_M_STRUCT = ['a', '1', '$', '#', '.', '*', '>', '+', '^', '(', ')', '[', ']
 # token-level markup units that cannot be spelled within the character bound
 UNITS_M = ['a', 'ul', 'lorem', 'lorem5-', 'lorem-', 'label', 'input', '$#', '${1}', '${1:x}', '${a}', '*3', '*', '$$@-3', '$@^',
            '{t}', '{l1\nl2 ${1:x}}', '[a=b]', '[a="b c"]', '["q"]', '[', ']', '{', '}', '.c', '#i', '.', '/', '>', '+', '^', '(', ')', ' ', '"', '-',
-           '!', ':', '\\', NBSP, 'é', '٣', 'A']
+           '!', ':', '\\', NBSP, 'é', '٣', 'A', '0', '.-e', '._m']       # 0: counts and word numbers of zero; BEM shorthands
 
 # stylesheet abbreviation characters: t = transparent, f/a = hex letters, 0 vs 1 because 0 is unit-less
 SIGMA_S = ['a', 't', 'f', '1', '0', '$', '#', '.', '-', '!', ':', '/', '+', '(', ')', '{', '}', '"', "'", ' ', '%',
@@ -24,15 +24,16 @@ UNITS_S = ['m', 'p', 'c', 'bd', 'lg', 'trf', '@kf', 'anim', 'animic', 'cnt', '10
 
 # CSS source / HTML source (matchers)
 SIGMA_C = ['a', '{', '}', ':', ';', '"', "'", '\\', '(', ')', '/', '*', ' ', '\n', '@', '-', ',']
-SIGMA_H = ['<', '>', '/', 'a', 'b', ' ', '=', '"', "'", '!', '-', '[', ']', '?', '{', '}', '\\']
+SIGMA_H = ['<', '>', '/', 'a', 'b', ' ', '=', '"', "'", '!', '-', '[', ']', '?', '{', '}', '\\', '*']      # `*`: attribute-name prefix (*ngIf, #ref)
 UNITS_H = ['<a', '</a>', '<a>', '<br>', '/>', '>', '<', ' b="', " c='", ' d={', '"', "'", '}', ' e', '=', 'x',
            '<script>', '</script>', '<style>', '<!--', '-->', '<![CDATA[', ']]>', '<?', '?>', ' ', '/',
-           '<script type=']            # the attribute the scanner itself reads (special elements are typed)
+           '<script type=', ' *', ' #r', '{']            # the attribute the scanner itself reads (special elements are typed)
 
 # math
 TOKENS_E = ['1', '2', '0', '.5', '1.5', '+', '-', '*', '/', '\\', '(', ')', ' ', '()', '(1)', '(2+1)']
-SIGMA_E = ['1', '.', '+', '-', '*', '/', '\\', '(', ')', ' ', 'a']
-SIGMA_EX = ['1', '.', '+', '-', '(', ')', ' ', 'a']
+# '\u00b2' (superscript two): str.isdigit() but not a decimal digit - not part of a number
+SIGMA_E = ['1', '.', '+', '-', '*', '/', '\\', '(', ')', ' ', 'a', '\u00b2']
+SIGMA_EX = ['1', '.', '+', '-', '(', ')', ' ', 'a', '\u00b2']
 
 # extract
 SIGMA_X = ['a', '1', '$', '#', '.', '*', '-', '!', ':', '/', '>', '+', '^', '(', ')', '[', ']', '{', '}', '=', '"', "'",
